@@ -56,8 +56,12 @@ package types
 //@     invariant seen:   forall j int :: 0 <= j && j < i ==> bitOf(b[j]) != 0 && (m0 & bitOf(b[j])) != 0
 //@     invariant only:   allLettersOf(b[:i], m0 & ModeBitmask)
 
+// (ghost: the mode most recently parsed successfully from a non-empty text - so that a caller's contract can say "what
+// was asked for is what was applied")
+//@ ghost var lastParsedMode AccessMode
 //@ func (m *AccessMode) UnmarshalText(b []byte) (err error)
-//@   modifies *m
+//@   modifies *m, lastParsedMode
+//@   ensures [assumed] parsed_recorded: err == nil && len(b) > 0 ==> lastParsedMode == *m
 //@   ensures [C05] unchanged: (err != nil || len(b) == 0) ==> *m == old(*m)
 //@   ensures [C05] reject:    (exists i int :: 0 <= i && i < len(b) && bitOf(b[i]) == 0 && !isN(b[i])) ==> err != nil
 //@   ensures [C05] assigned:  err == nil && len(b) > 0 && allLetters(b) ==> (*m &^ ModeBitmask) == 0 && spells(b, *m)
